@@ -19,6 +19,7 @@ import (
 
 // Mismatch is one positional difference between the Go and the Lean output streams.
 type Mismatch struct {
+	Class  string   `json:"class"`
 	Stream string   `json:"stream"`
 	Op     string   `json:"op"`
 	Go     string   `json:"go"`
@@ -50,47 +51,52 @@ type StreamStats struct {
 }
 
 type Result struct {
-	Property   string        `json:"property"`
-	Tier       string        `json:"tier"`
-	Seed       uint64        `json:"seed"`
-	Streams    []StreamStats `json:"streams"`
-	Mismatches []Mismatch    `json:"mismatches"`
-	MismatchN  int           `json:"mismatch_count"`
-	Violations []Violation   `json:"violations"`
-	ViolationN int           `json:"violation_count"`
-	DriverErr  string        `json:"driver_error,omitempty"`
+	Property    string        `json:"property"`
+	Tier        string        `json:"tier"`
+	Seed        uint64        `json:"seed"`
+	Streams     []StreamStats `json:"streams"`
+	Mismatches  []Mismatch    `json:"mismatches"`
+	MismatchN   int           `json:"mismatch_count"`
+	IrrelevantN int           `json:"mismatches_in_operations_of_other_properties"`
+	Violations  []Violation   `json:"violations"`
+	ViolationN  int           `json:"violation_count"`
+	DriverErr   string        `json:"driver_error,omitempty"`
 }
 
 // Ctx carries one stream run: the PRNG, the pipe to the driver, statistics and findings.
 type Ctx struct {
-	stream  string
-	tier    string
+	stream   string
+	tier     string
 	thorough bool
-	rng     *RNG
-	res     *Result
-	stats   *StreamStats
-	drv     *driver
-	caseOps []string
-	seen    map[uint64]struct{}
-	props   map[string]bool // properties whose oracles are active ("" = all)
-	noModel bool
+	rng      *RNG
+	res      *Result
+	stats    *StreamStats
+	drv      *driver
+	caseOps  []string
+	seen     map[uint64]struct{}
+	props    map[string]bool // properties whose oracles are active ("" = all)
+	noModel  bool
 }
 
 type pending struct {
 	op, goOut string
 	caseOps   []string
+	class     string
 }
 
 type driver struct {
-	cmd   *exec.Cmd
-	stdin interface{ Close() error }
-	in    *bufio.Writer
-	out   *bufio.Scanner
-	queue chan pending
-	done  chan struct{}
-	res   *Result
-	stream string
-	err   string
+	cmd      *exec.Cmd
+	stdin    interface{ Close() error }
+	in       *bufio.Writer
+	out      *bufio.Scanner
+	queue    chan pending
+	done     chan struct{}
+	res      *Result
+	stream   string
+	err      string
+	class    string // class of the current case (known-finding discriminator)
+	props    map[string]bool
+	prefixes []string // operations whose model functions the property under check depends on
 }
 
 func startDriver(path string, res *Result) (*driver, error) {
@@ -112,6 +118,7 @@ func startDriver(path string, res *Result) (*driver, error) {
 	d.out.Buffer(make([]byte, 1<<20), 1<<28)
 	go func() {
 		defer close(d.done)
+		poisoned := false
 		for p := range d.queue {
 			if !d.out.Scan() {
 				if d.err == "" {
@@ -120,21 +127,73 @@ func startDriver(path string, res *Result) (*driver, error) {
 				continue
 			}
 			lean := d.out.Text()
-			if lean != p.goOut {
-				res.MismatchN++
-				if len(res.Mismatches) < 20 {
-					res.Mismatches = append(res.Mismatches, Mismatch{Stream: d.stream, Op: p.op, Go: p.goOut, Lean: lean, Case: p.caseOps})
-				}
+			if p.op == "case" {
+				poisoned = false
+			}
+			if lean != p.goOut && !poisoned {
+				// later ops of this case depend on the state this op left behind: do not compare them
+				poisoned = true
+				d.onMismatch(p, lean)
 			}
 		}
 	}()
 	return d, nil
 }
 
+// onMismatch classifies one positional difference. Operations answered by the executable Spec
+// ("sq spec…", "spec …") compare the real code with the independent reference of C07 / C10: a
+// difference there is a failure of the property itself on a concrete input. Every other
+// difference is a broken correspondence between the Impl model and the code; it counts for the
+// property under check only when the operation is one its theorems are about.
+func (d *driver) onMismatch(p pending, lean string) {
+	res := d.res
+	specProp := ""
+	switch {
+	case strings.HasPrefix(p.op, "sq spec"):
+		specProp = "C07"
+	case strings.HasPrefix(p.op, "spec "):
+		specProp = "C10"
+	}
+	if specProp != "" {
+		if d.props[""] || d.props[specProp] {
+			res.ViolationN++
+			if len(res.Violations) < 40 {
+				what := "the constructed square is not byte-identical to the specified layout (executable Spec.construct / Spec.build)"
+				if specProp == "C10" {
+					what = "the emitted shares are not byte-identical to the specified share encoding (executable Spec.Format)"
+				}
+				res.Violations = append(res.Violations, Violation{Property: specProp, Stream: d.stream, What: what, Class: p.class,
+					Ops: []string{p.op}, Detail: "real code: " + trunc(p.goOut, 300) + " | specification: " + trunc(lean, 300)})
+			}
+		}
+		return
+	}
+	if !d.relevant(p.op) {
+		res.IrrelevantN++
+		return
+	}
+	res.MismatchN++
+	if len(res.Mismatches) < 20 {
+		res.Mismatches = append(res.Mismatches, Mismatch{Stream: d.stream, Op: p.op, Go: p.goOut, Lean: lean, Case: p.caseOps, Class: p.class})
+	}
+}
+
+func (d *driver) relevant(op string) bool {
+	if len(d.prefixes) == 0 {
+		return true
+	}
+	for _, pre := range d.prefixes {
+		if strings.HasPrefix(op, pre) {
+			return true
+		}
+	}
+	return false
+}
+
 func (d *driver) send(op, goOut string, caseOps []string) {
 	d.in.WriteString(op)
 	d.in.WriteByte('\n')
-	p := pending{op, goOut, caseOps}
+	p := pending{op, goOut, caseOps, d.class}
 	select {
 	case d.queue <- p:
 	default:
@@ -159,8 +218,16 @@ func trunc(s string, n int) string {
 	return s
 }
 
+// setClass tags the current case with a known-finding discriminator ("" = none).
+func (c *Ctx) setClass(class string) {
+	if c.drv != nil {
+		c.drv.class = class
+	}
+}
+
 // newCase starts a fresh driver state.
 func (c *Ctx) newCase() {
+	c.setClass("")
 	c.stats.Cases++
 	c.caseOps = c.caseOps[:0]
 	c.emit("case", "case")
@@ -244,6 +311,31 @@ var propStreams = map[string][]string{
 	"C20": {"RANGE", "BUILDER"},
 }
 
+// operations (by prefix) whose model functions each property's theorems are about; a
+// correspondence difference elsewhere in a shared stream does not touch that property
+var propOps = map[string][]string{
+	"C01": {"sq build", "sq construct"},
+	"C02": {"sq construct", "sh deconstruct"},
+	"C03": {"sq build", "sq construct"},
+	"C04": {"sq construct", "sq blobrange", "sh wpfbs"},
+	"C05": {"commit roots", "sh rowroot"},
+	"C06": {"sq build", "b "},
+	"C07": {"sq build", "sq construct"},
+	"C08": {"sss ", "sh parseblobs", "sh wrap"},
+	"C09": {"css ", "sh parsetxs"},
+	"C10": {"share ", "css export", "css write", "sss "},
+	"C11": {"css ", "sh parsetxs"},
+	"C12": {"sq txrange", "sq blobrange", "css ranges", "css write", "css export"},
+	"C13": {"cnt ", "arith "},
+	"C14": {"css ", "b "},
+	"C15": {"arith "},
+	"C16": {},
+	"C17": {},
+	"C18": {"ns "},
+	"C19": {"proto "},
+	"C20": {"sh range", "sh parseshares", "sh seqraw"},
+}
+
 func main() {
 	prop := flag.String("property", "", "property id (C01..C20) or empty with -streams")
 	streamList := flag.String("streams", "", "comma separated stream names (overrides the property's)")
@@ -253,7 +345,12 @@ func main() {
 	out := flag.String("out", "", "result JSON path")
 	scale := flag.Float64("scale", 1.0, "multiplier on case counts")
 	opsFile := flag.String("ops", "", "also write every operation line and the Go result to this file (debugging)")
+	facts := flag.Bool("facts", false, "print Gen/Facts.lean regenerated from the compiled package and exit")
 	flag.Parse()
+	if *facts {
+		writeFacts(os.Stdout)
+		return
+	}
 
 	res := &Result{Property: *prop, Tier: *tier, Seed: *seed, Violations: []Violation{}, Mismatches: []Mismatch{}}
 	names := propStreams[*prop]
@@ -289,6 +386,8 @@ func main() {
 				os.Exit(2)
 			}
 			d.stream = name
+			d.props = props
+			d.prefixes = propOps[*prop]
 			c.drv = d
 		}
 		t0 := time.Now()
